@@ -734,7 +734,10 @@ func (e *absEnv) call(fn *ssa.Function, args []aval, free []aval, depth int) ava
 					val = zeroOf(t.AssertedType)
 				case aiface:
 					known = true
-					if it, isI := underlying(t.AssertedType).(*types.Interface); isI {
+					if types.Identical(t.AssertedType, t.X.Type()) {
+						// go/ssa's nil check for a method value taken from an interface: any non-nil value passes
+						okv, val = true, v
+					} else if it, isI := underlying(t.AssertedType).(*types.Interface); isI {
 						okv = types.Implements(v.typ, it)
 						val = v
 					} else {
